@@ -15,6 +15,9 @@ The property quantifies over all programs; its anchored mechanism is decided str
    loses answers only when the propagator runs before its operands are pinned, i.e. by posting order;
    fixpoint / re-examination of run_constraints (with C16); diseq re-check threads its state and the
    normalisation predicate's default (with C02).
+ (round 5) the set algebra the propagators call is exact in both representations (C18 tables: intersect /
+   diff / is_disjoint merges, copy_before / drop_before, None-iff-empty) - a narrowing must not depend on which
+   goal turned an interval into a sparse list first; process_extension_diseq re-runs the store unconditionally.
 """
 import hirwalk
 import streams
@@ -114,7 +117,8 @@ def check_unify_callers(ctx, lib, rule):
     fn = lib.fns.get("crate::state::State::process_extension_diseq")
     if fn:
         t = sym.Evaluator(lib).fn_term(fn)
-        ctx.expect(unify(pat("run_constraints(@0)"), tables.result(t)) is not None, rule, fn["npath"] + "|reruns", site_of(fn), "the disequality stage of process_extension must re-run the constraint store")
+        uncond = not [s for s in sym.subterms(t) if s[0] == "ret"] and tables.flatten(t)[1][0] == "call"
+        ctx.expect(unify(pat("run_constraints(@0)"), tables.result(t)) is not None and uncond, rule, fn["npath"] + "|reruns", site_of(fn), "the disequality stage of process_extension must re-run the constraint store, unconditionally (which stored constraint a binding affects cannot be read off the extension's un-walked operands: aliases)")
 
 
 def check_stages(ctx, lib, rule):
@@ -250,3 +254,7 @@ def run(ctx, fb, cfg):
             fdrules.check_arith_propagator(ctx, lib, R + "K7c.sound-bounds", mod, what="bounds")
         # the fixpoint of run_constraints (a constraint that binds its own operand is re-examined) - shared with C16
         fdrules.check_restale(ctx, lib, R + "K2K3.re-examination")
+        # a narrowing must not depend on whether an earlier goal already turned the interval into a sparse list
+        import C18
+
+        C18.check_algebra_for_propagators(ctx, lib, R)
